@@ -795,10 +795,10 @@ handle_null_request(int tun_fd, int dns_fd, struct dnsfd *dns_fds, struct query 
 		/* Version greeting, compare and send ack/nak */
 		if (read > 4) {
 			/* Received V + 32bits version */
-			version = (((unpacked[0] & 0xff) << 24) |
-					   ((unpacked[1] & 0xff) << 16) |
-					   ((unpacked[2] & 0xff) << 8) |
-					   ((unpacked[3] & 0xff)));
+			version = (((uint32_t) (unpacked[0] & 0xff) << 24) |
+					   ((uint32_t) (unpacked[1] & 0xff) << 16) |
+					   ((uint32_t) (unpacked[2] & 0xff) << 8) |
+					   ((uint32_t) (unpacked[3] & 0xff)));
 		}
 
 		if (version == PROTOCOL_VERSION) {
